@@ -238,8 +238,9 @@ op_open (char **tok, int ntok)
 		scratch_init () ;
 		snprintf (h->path, sizeof (h->path), "%s/%s.%s", scratch_dir, tok [2], ext ? ext : "dat") ;
 		fflush (stdout) ;
-		if (mode == SFM_READ)
-		{	h->stdio_saved = 1 + fcntl (0, F_DUPFD, 100) ;
+		if (mode == SFM_READ || mode == SFM_RDWR)
+		{	/* SFM_RDWR is refused by the library; should it ever not be, it must find the scratch file behind descriptor 0, not the harness's input */
+			h->stdio_saved = 1 + fcntl (0, F_DUPFD, 100) ;
 			if (!strcmp (route, "stdiopipe"))
 			{	int pfd [2] ; pid_t pid ;
 				if (pipe (pfd) != 0) { printf ("bad-route\n") ; return ; }
@@ -262,7 +263,7 @@ op_open (char **tok, int ntok)
 				}
 			else
 			{	store_to_file (h->path, s, 0, 0) ;
-				fd = open (h->path, O_RDONLY) ;
+				fd = open (h->path, mode == SFM_READ ? O_RDONLY : O_RDWR) ;
 				}
 			if (fd != 0) { dup2 (fd, 0) ; close (fd) ; }
 			}
@@ -282,7 +283,7 @@ op_open (char **tok, int ntok)
 			}
 		h->sf = sf_open ("-", mode, &h->info) ;
 		if (h->sf == NULL)
-		{	if (mode == SFM_READ && h->stdio_saved > 0) { dup2 (h->stdio_saved - 1, 0) ; close (h->stdio_saved - 1) ; h->stdio_saved = 0 ; }
+		{	if (mode != SFM_WRITE && h->stdio_saved > 0) { dup2 (h->stdio_saved - 1, 0) ; close (h->stdio_saved - 1) ; h->stdio_saved = 0 ; }
 			if (mode == SFM_WRITE) { close (1) ; h->stdio_saved = 0 ; }
 			if (h->path [0]) unlink (h->path) ;
 			h->path [0] = 0 ;
